@@ -2,7 +2,9 @@
 From Coq Require Import String.
 From HS Require Import Lib.Base Lib.Bytes Lib.Dec Model.Negot Model.Chunker Run.Val.
 
-Record stinput := { s_cap : N; s_level : N; s_meth : bytes; s_ae : option bytes; s_parts : bool; s_ops : list cop }.
+(* s_sg: what the implementation's own should_gzip answered for s_ae (absent in old corpus cases) *)
+Record stinput := { s_cap : N; s_level : N; s_meth : bytes; s_ae : option bytes; s_parts : bool; s_ops : list cop;
+                    s_sg : option bool }.
 
 Definition dec_cop (v : val) : option cop :=
   match v with
@@ -17,17 +19,22 @@ Definition dec_cop (v : val) : option cop :=
   end.
 Definition dec_stinput (v : val) : option stinput :=
   match v with
-  | VL [VN cap; VN level; VB m; ae; VN p; ops] =>
+  | VL (VN cap :: VN level :: VB m :: ae :: VN p :: ops :: rest) =>
       match vopt vbytes ae, vlist dec_cop ops with
-      | Some ae, Some ops => Some {| s_cap := cap; s_level := level; s_meth := m; s_ae := ae; s_parts := negb (p =? 0); s_ops := ops |}
+      | Some ae, Some ops => Some {| s_cap := cap; s_level := level; s_meth := m; s_ae := ae; s_parts := negb (p =? 0); s_ops := ops;
+                                    s_sg := match rest with [VN 0] => Some false | [VN 1] => Some true | _ => None end |}
       | _, _ => None
       end
   | _ => None
   end.
 
 Definition HEAD_ : bytes := [72;69;65;68].
+(* C17 is stated relative to should_gzip ("as should_gzip decides"): the builder's decision is predicted
+   from the implementation's own answer when the case carries it; that answer against the model of
+   should_gzip is the field "should_gzip" (C16's subject, drift here) *)
+Definition model_sg (i : stinput) : bool := match should_gzip (s_ae i) with Ok b => b | Panic _ => false end.
 Definition gzip_on (i : stinput) : bool :=
-  match should_gzip (s_ae i) with Ok b => b && (0 <? s_level i) | Panic _ => false end.
+  (match s_sg i with Some b => b | None => model_sg i end) && (0 <? s_level i).
 Definition has_writer (i : stinput) : bool := negb (beq_bytes (s_meth i) HEAD_).
 
 Definition of_copres (r : copres) : val :=
@@ -393,6 +400,7 @@ Definition run_stream (v : val) : val :=
               let tag := (if gz then bs "gzip" else bs "raw") ++ (if has_writer i then [] else bs ":head") in
               let common :=
                 cmp_field F_S_HDRS (model_hdrs i) ohdrs
+                ++ (match s_sg i with Some b => cmp_field (bs "should_gzip") (of_bool (model_sg i)) (of_bool b) | None => [] end)
                 ++ cmp_field F_S_HDR_VARY (hdr_vals_s (bs "vary") (model_hdrs i)) (hdr_vals_s (bs "vary") ohdrs)
                 ++ cmp_field F_S_HDR_CE (hdr_vals_s (bs "content-encoding") (model_hdrs i)) (hdr_vals_s (bs "content-encoding") ohdrs)
                 ++ cmp_field F_S_WRITER (of_bool (has_writer i)) ow
